@@ -31,9 +31,12 @@ type Ctx struct {
 	Notes []string
 	Stats map[string]int
 	plat  string
+	// RulePrefix is prepended to rule ids while rules shared from another property run
+	RulePrefix string
 }
 
 func (c *Ctx) add(rule, key, status, pos, msg string) {
+	rule = c.RulePrefix + rule
 	c.Obs = append(c.Obs, Ob{Prop: c.Prop, Rule: c.Prop + "." + rule, Key: c.Prop + "." + rule + "#" + key, Status: status, Pos: pos, Msg: msg, Plat: c.plat})
 }
 func (c *Ctx) OK(rule, key, pos, msg string)        { c.add(rule, key, "discharged", pos, msg) }
